@@ -56,7 +56,9 @@ CHECKS = {
          "every clock reading not before 2000, the transcription of update_extensions returns Ok(false) exactly when hop count+1 > limit, age+residence > "
          "lifetime (ms) or creation+lifetime <= now computed on unbounded integers, otherwise Ok(true) with exactly hop+1 / age+residence / previous node "
          "= node and nothing else changed; no panic in checked or wrapping arithmetic; K-ops channel: all boundary (limit,count) pairs and a boundary "
-         "cross product for age/residence/lifetime/creation/now under the clock hook, debug and release builds.",
+         "cross product for age/residence/lifetime/creation/now under the clock hook, debug and release builds. C08_code_structure: the function written the "
+         "way bundle.rs writes it (block selected by extension_block_by_type_mut, then hop_count_get/_increase/_exceeded, previous_node_update, "
+         "bundle_age_get/_update applied in place: Model/Api.v) equals the function those theorems are about; both models answer the same lines (OPS / OPSA).",
          "clock >= 2000-01-01 (dtn_time_now); std Duration::as_millis.", "DESIGN.md section 6 C08"),
  "C09": ("Coq theorems C09_unique / C09_unique_from / C09_complete / C09_sequential*: NoDup of returned (time, seq) pairs for every number of threads, calls, "
          "clock readings and every interleaving of the instrumented operations (invariant over the schedule), plus the non-overlapping clause; "
@@ -90,7 +92,13 @@ CHECKS = {
 "round-trips (via C01, and via C11_roundtrip_unknown_crc on the domain extended to unknown CRC types, wf_bundle_u); proved by one preservation lemma per mutator (C11_step) and induction over the operation list; C11_start / "
 "C11_builder_build / C11_std_bundle show the builders establish the start state. K-ops channel: all operation-kind sequences <= 3 (thorough 4) "
 "over 15 kinds with boundary arguments + random sequences <= 8 in debug and release builds, Inv evaluated by an independent Python oracle on "
-"the implementation's bundle after every step.",
+"the implementation's bundle after every step. Public constructors and builders (Model/Api.v, Proofs/ApiProofs.v): C11_bundle_builder / "
+"C11_from_builder (BundleBuilder with primary/canonicals/payload each optional = builder_build with the payload block pushed last; what it returns, "
+"once valid and well formed, keeps the invariant under every admissible sequence), C11_builder_payload_last, C11_constructors_admissible / "
+"C11_constructors_valid (every new_*_block call with in-range arguments is an admissible argument and passes extension validation), "
+"C11_primary_builder (refuses exactly the null destination, copies every field), C11_std_bundle_api (the unwrap inside new_std_payload_bundle), "
+"C11_block_ops (laws of hop_count_increase / bundle_age_update / previous_node_update and their getters); K-api channel: each of these functions "
+"with every setter called or not, against the model and against what the function documents.",
 "start state must be inside the C01 domain extended to unknown CRC types (validate alone accepts CanonicalData::Unknown under a known block type, which does not round-trip: "
 "C11_ex_unknown_typed); admissible arguments = Model/OpSeq.v op_ok; clock >= 2000-01-01.", "DESIGN.md section 6 C11"),
  "C12": ("Coq theorems C12_record_roundtrip (every normal-form administrative record — status reports with any number of status items of the three "
